@@ -810,8 +810,11 @@ def rule_bbox(ctx) -> RuleResult:
         "C13.BBOX",
         "C13",
         "for every mask_by_extent override guarded by box_intersect(self.extent, ..): the `extent` getter reached on each class "
-        "using the override computes its value from exactly the object attributes the selected coordinates come from, and, "
-        "when it keeps the value in a field of the object, every member storing one of its inputs resets that field",
+        "using the override computes its value from (at least) all the object attributes the selected coordinates come from — a "
+        "wider box only turns `nothing` into an all-False mask, a box that leaves a source out can reject qualifying elements; "
+        "where the guard is the only test (no predicate call: all-or-nothing overrides) the box is the selection and must come "
+        "from exactly those attributes — and, when the value is kept in a field of the object, every member storing one of its "
+        "inputs resets that field",
         floor=3,
     )
     from ..cache import CacheAnalysis, deps, readers_of_cache
@@ -828,10 +831,12 @@ def rule_bbox(ctx) -> RuleResult:
         if not guards:
             continue
         selected = _selected_sources(p, fn, pred)
+        guard_decides = False
         if selected is None and not any(_mask_source(p, fn, c, pred) is not None for c in ast.walk(fn.node)):
             # all-or-nothing selection without the predicate (image corners): what the returned mask is sized by
             vals = [r.value for r in ast.walk(fn.node) if isinstance(r, ast.Return) and r.value is not None and not is_none(r.value)]
             selected = {_norm_attr(ci, a) for a in provenance(fn.node, vals, sn)} or None
+            guard_decides = True  # whatever passes the guard is selected as a whole
         getters = {}
         for K in p.subclasses(ci):
             m = K.lookup("mask_by_extent")
@@ -849,17 +854,17 @@ def rule_bbox(ctx) -> RuleResult:
             K = users[0]
             got = {_norm_attr(K, a) for a in provenance(g.node, rets, gsn)} - {"extent"}
             where = f"{g.module.relpath}:{g.node.lineno}"
-            ok = selected is None or got == selected
+            ok = selected is None or (got == selected if guard_decides else selected <= got)
             res.inst(f"{ci.name}.mask_by_extent guard <- {g.qualname}: bounding box of {sorted(got)}, selection on "
                      f"{sorted(selected) if selected is not None else 'a base class'}", nontrivial=True, ok=ok)
             if selected is not None and selected - got:
                 res.find(g.cls.name, "extent", f"bounding box does not cover the coordinates {ci.name}.mask_by_extent selects on", where,
                          f"the guard of {ci.name}.mask_by_extent tests a box computed from {sorted(got)} while the elements are selected on "
                          f"{sorted(selected)}: elements inside the requested box can be rejected wholesale")
-            if selected is not None and got - selected:
-                res.find(g.cls.name, "extent", f"bounding box wider than the coordinates {ci.name}.mask_by_extent selects on", where,
-                         f"the guard of {ci.name}.mask_by_extent tests a box that also spans {sorted(got - selected)}: it passes for boxes that hold "
-                         "no selectable element, an all-False mask is returned instead of nothing and copy_from_extent copies the object")
+            if selected is not None and guard_decides and got - selected:
+                res.find(g.cls.name, "extent", f"bounding box wider than what {ci.name}.mask_by_extent selects as a whole", where,
+                         f"{ci.name}.mask_by_extent applies no per-element test: every box that touches the bounding box selects the whole object, "
+                         f"and the box also spans {sorted(got - selected)}")
             # a value kept on the object must be dropped whenever its inputs change
             for F in sorted(self_stores(g.node, gsn)):
                 for K in users:
